@@ -469,6 +469,7 @@ type Clause struct {
 	Props []string
 	Loop  int    // loop ordinal (1-based) for invariant/decreases
 	Site  string // callee key + #k for atcall
+	Assumed  bool // ensures: assumed at call sites, not proved against the body
 	Required bool // atcall: the call must exist (its disappearance fails the clause instead of making it vacuous)
 	Src   string
 	E     Expr
@@ -555,7 +556,7 @@ func NewSpecSet() *SpecSet {
 
 var clauseKeywords = map[string]bool{"spec": true, "axiom": true, "ghost": true, "func": true, "requires": true, "ensures": true,
 	"modifies": true, "loop": true, "at": true, "maypanic": true, "inline": true, "trusted": true, "pure": true, "check": true,
-	"let": true, "chanmode": true, "chaninv": true, "defines": true, "maintains": true, "thorough": true, "secret": true, "flows": true, "asset": true, "nosafety": true, "guarded": true, "after": true, "noverify": true, "ghostparam": true}
+	"let": true, "chanmode": true, "chaninv": true, "defines": true, "maintains": true, "thorough": true, "secret": true, "flows": true, "asset": true, "nosafety": true, "guarded": true, "after": true, "assumed": true, "noverify": true, "ghostparam": true}
 
 // ReadSpecFile reads //@ lines. pkgPrefix is prepended to `func` keys that are
 // not already qualified (contract files inside a package use short keys).
@@ -852,6 +853,22 @@ func (ss *SpecSet) ReadSpecFile(path, pkgPrefix string) error {
 					}
 					cur.Clauses = append(cur.Clauses, c)
 				}
+			case "assumed":
+				// assumed ensures E : a postcondition callers may use but that is NOT proved against the body (an explicit,
+				// listed assumption - e.g. the completeness half of a search whose soundness half is proved)
+				if !strings.HasPrefix(rest, "ensures ") {
+					fail(rc.line, "assumed ensures EXPR")
+					continue
+				}
+				c := &Clause{Kind: "ensures", File: path, Line: rc.line, Assumed: true}
+				body := parseTags(strings.TrimPrefix(rest, "ensures "), c)
+				e, err := ParseExpr(body)
+				if err != nil {
+					fail(rc.line, "%v", err)
+					continue
+				}
+				c.E, c.Src = e, body
+				cur.Clauses = append(cur.Clauses, c)
 			case "requires", "ensures":
 				c := &Clause{Kind: kw, File: path, Line: rc.line}
 				rest = parseTags(rest, c)
